@@ -4,6 +4,7 @@ import (
 	"bufio"
 	"fmt"
 	"io"
+	"os"
 	"os/exec"
 	"strconv"
 	"strings"
@@ -37,10 +38,13 @@ type Solver struct {
 	SolverNS  int64
 	Errors    []string
 	nsyms     int
+	UseAssuming bool
+	inPath      bool
+	pathsSinceReset int
 }
 
 func NewSolver(path string, args []string, timeoutMS int) (*Solver, error) {
-	s := &Solver{Path: path, Args: args, TimeoutMS: timeoutMS, P: NewPrinter()}
+	s := &Solver{Path: path, Args: args, TimeoutMS: timeoutMS, P: NewPrinter(), UseAssuming: os.Getenv("VX_ASSUMING") != ""}
 	if err := s.start(); err != nil {
 		return nil, err
 	}
@@ -85,11 +89,22 @@ func (s *Solver) Reset() {
 	s.Log.Reset()
 	s.P.Reset()
 	s.nsyms = 0
-	s.send("(reset)\n")
-	if strings.Contains(s.Path, "cvc5") {
-		s.send("(set-logic QF_BV)\n")
+	// A real (reset) costs ~3 ms in z3; scoping each path with push/pop
+	// (declarations are scoped too) costs ~0.5 ms. Do a real reset now and
+	// then to bound the solver's memory.
+	if s.inPath && s.pathsSinceReset < 400 {
+		io.WriteString(s.in, "(pop 1)\n")
+		s.pathsSinceReset++
+	} else {
+		io.WriteString(s.in, "(reset)\n")
+		if strings.Contains(s.Path, "cvc5") {
+			io.WriteString(s.in, "(set-logic QF_BV)\n")
+		}
+		io.WriteString(s.in, fmt.Sprintf("(set-option :timeout %d)\n", s.TimeoutMS))
+		s.pathsSinceReset = 0
 	}
-	s.send(fmt.Sprintf("(set-option :timeout %d)\n", s.TimeoutMS))
+	io.WriteString(s.in, "(push 1)\n")
+	s.inPath = true
 }
 
 func (s *Solver) flushDefs() {
@@ -124,11 +139,25 @@ func (s *Solver) Check(ctx *Ctx, extra ...*Term) (Result, Model) {
 	}
 	s.flushDefs()
 	var sb strings.Builder
-	sb.WriteString("(push 1)\n")
-	for _, n := range names {
-		sb.WriteString("(assert " + n + ")\n")
+	if s.UseAssuming {
+		sb.WriteString("(check-sat-assuming (")
+		for _, n := range names {
+			if n == "true" {
+				continue
+			}
+			if n == "false" {
+				return Unsat, nil
+			}
+			sb.WriteString(n + " ")
+		}
+		sb.WriteString("))\n")
+	} else {
+		sb.WriteString("(push 1)\n")
+		for _, n := range names {
+			sb.WriteString("(assert " + n + ")\n")
+		}
+		sb.WriteString("(check-sat)\n")
 	}
-	sb.WriteString("(check-sat)\n")
 	t0 := time.Now()
 	s.send(sb.String())
 	s.Queries++
@@ -149,6 +178,7 @@ func (s *Solver) Check(ctx *Ctx, extra ...*Term) (Result, Model) {
 			// restart so later paths can continue; this query is unknown
 			s.Close()
 			s.start()
+			s.inPath = false
 			s.SolverNS += time.Since(t0).Nanoseconds()
 			return Unknown, nil
 		}
@@ -200,7 +230,9 @@ func (s *Solver) Check(ctx *Ctx, extra ...*Term) (Result, Model) {
 			}
 		}
 	}
-	s.send("(pop 1)\n")
+	if !s.UseAssuming {
+		s.send("(pop 1)\n")
+	}
 	s.SolverNS += time.Since(t0).Nanoseconds()
 	if len(s.Errors) > 0 && res != Unknown {
 		// any (error line makes the answer untrustworthy
